@@ -986,7 +986,7 @@ class Shelxfile():
                 try:
                     elcount = num / self.Z
                     formula_weight += elcount * float(weight_from_symbol(el.capitalize()))
-                    formstring += f"{el}{elcount :,g} "
+                    formstring += f"{el}{elcount:g} "
                 except ZeroDivisionError:
                     return ''
         self.formula_weight = round(formula_weight, 3)
